@@ -61,9 +61,17 @@ package document
 
 // For each of the three formats a Default entry for the extension of the media part exists afterwards
 // (fmtExt(format) == "." + ctExt(format)); entries that existed stay where they were, at most one is appended.
+// imgOwned(d, b) (property C17): the document object and the containers the picture allocator writes - part map,
+// document relationship list, content-type defaults - lie at or above the ownership bound b. The allocator and its
+// helpers promise, without requiring it: if that held at entry, nothing below b is written (the template engine
+// renders into a clone whose containers are all fresh).
+//@ spec imgOwned(d *Document, b int) bool = d != nil && above(d, b) && above(d.parts, b) && above(d.documentRelationships, b) && (d.documentRelationships != nil ==> above(d.documentRelationships.Relationships, b)) && above(d.contentTypes, b) && (d.contentTypes != nil ==> above(d.contentTypes.Defaults, b))
+
 //@ func (*Document).addImageContentType
-//@ props C10, C01
+//@ props C10, C01, C17
+//@ ghost B int
 //@ requires d != nil
+//@ ensures old(imgOwned(d, B)) ==> unchangedBelow(B) && imgOwned(d, B)
 //@ ensures d.contentTypes != nil && (old(d.contentTypes) != nil ==> d.contentTypes == old(d.contentTypes))
 //@ ensures knownFmt(format) ==> ctHasDefault(d.contentTypes.Defaults, ctExt(format))
 //@ ensures old(d.contentTypes) != nil ==> len(d.contentTypes.Defaults) >= old(len(d.contentTypes.Defaults)) && len(d.contentTypes.Defaults) <= old(len(d.contentTypes.Defaults)) + 1
@@ -73,6 +81,7 @@ package document
 //@ loop 1
 //@   invariant 0 <= #i && #i <= len(d.contentTypes.Defaults) && unchangedExcept("Document.contentTypes") && d.contentTypes != nil
 //@   invariant forall j int :: 0 <= j && j < #i ==> d.contentTypes.Defaults[j].Extension != extension
+//@   invariant old(imgOwned(d, B)) ==> unchangedBelow(B) && imgOwned(d, B)
 //@   decreases len(d.contentTypes.Defaults) - #i
 
 // ---- the drawing placed in the document ---------------------------------------------------------------------
@@ -108,6 +117,7 @@ package document
 //@ props C10, C02
 //@ requires imageInfo != nil
 //@ modifies nothing
+//@ ensures !isElem(result)
 //@ ensures fresh(result) && len(result.Runs) == 1
 //@ ensures exists w int, h int :: {itoa(w), itoa(h)} sizeRule(imageInfo, w, h) && drawingIs(result.Runs[0].Drawing, imageInfo.RelationID, imageInfo.ID, itoa(w), itoa(h))
 
@@ -123,8 +133,10 @@ package document
 
 // AddImageFromDataWithoutElement: the allocator shared by the body, table-cell and template paths.
 //@ func (*Document).AddImageFromDataWithoutElement
-//@ props C10, C02, C04, C01
+//@ props C10, C02, C04, C01, C17
+//@ ghost B int
 //@ requires docParts(d) && mediaFresh(d)
+//@ ensures old(imgOwned(d, B)) ==> unchangedBelow(B) && imgOwned(d, B)
 //@ ensures err == nil && fresh(result0) && docParts(d)
 //@ ensures d.nextImageID == old(d.nextImageID) + 1
 //@ ensures mediaFresh(d)
@@ -246,8 +258,11 @@ package document
 // obligation take 6-7 s.
 // A failure changes nothing.
 //@ func (*TemplateEngine).createImageParagraph
-//@ props C10, C02
+//@ props C10, C02, C17
+//@ ghost B int
 //@ requires docParts(doc) && mediaFresh(doc) && imageData != nil
+//@ ensures old(imgOwned(doc, B)) ==> unchangedBelow(B) && imgOwned(doc, B)
+//@ ensures err == nil ==> !isElem(result0)
 //@ ensures err != nil ==> result0 == nil && unchangedHeap()
 //@ ensures err == nil ==> fresh(result0) && len(result0.Runs) == 1 && docParts(doc) && doc.Body == old(doc.Body) && len(doc.Body.Elements) == old(len(doc.Body.Elements))
 //@ ensures err == nil ==> (old(len(imageData.Data)) > 0 ==> (doc.nextImageID == old(doc.nextImageID) + 1 && mediaFresh(doc))) && (old(len(imageData.Data)) == 0 ==> (doc.nextImageID == old(doc.nextImageID) + 1 && mediaFresh(doc)))
